@@ -141,6 +141,39 @@ func (p c12) direct(c *core.Ctx) bool {
 		c.Fail("", "sorter output violates the contract: "+v, map[string]any{"input": sig, "output": fmt.Sprint(seq)})
 		return false
 	}
+	// the caller's list is sequenced again later (one loader / participant list handed to two
+	// configurations or applications): again every participant exactly once, in contract order
+	var out2 []any
+	func() {
+		defer func() {
+			if r := recover(); r != nil {
+				c.Fail("", fmt.Sprintf("SortOrderedComponents panicked on the second sequencing of one list: %v", r), map[string]any{"input": sig})
+			}
+		}()
+		out2 = framework_helper.SortOrderedComponents(in)
+	}()
+	if c.Failed() {
+		return false
+	}
+	seen2 := map[any]bool{}
+	var seq2 []part
+	for _, o := range out2 {
+		pt, ok := parts[o]
+		if !ok || seen2[o] {
+			c.Fail("", "second sequencing of the same participant list: a participant is repeated", map[string]any{"input": sig, "first": fmt.Sprint(seq)})
+			return false
+		}
+		seen2[o] = true
+		seq2 = append(seq2, pt)
+	}
+	if len(out2) != n {
+		c.Fail("", fmt.Sprintf("second sequencing of the same participant list returned %d of %d participants", len(out2), n), map[string]any{"input": sig, "first": fmt.Sprint(seq), "second": fmt.Sprint(seq2)})
+		return false
+	}
+	if v := contractViolation(seq2); v != "" {
+		c.Fail("", "second sequencing of the same participant list violates the contract: "+v, map[string]any{"input": sig, "second": fmt.Sprint(seq2)})
+		return false
+	}
 	if n >= 3 && len(classes) >= 2 && tie {
 		c.Nontrivial(sig)
 		if c.WantSample() {
@@ -172,6 +205,8 @@ func (p c12) start(c *core.Ctx) {
 	ppClass := map[string]part{}
 	withDeps := c.Rng.Intn(3) == 0
 	withLazy := c.Rng.Intn(2) == 0
+	withLate := c.Rng.Intn(3) == 0
+	late := 0
 	lazyPP := map[string]bool{}
 	var plain []int // indices into extra of the plain logging post-processors
 	for k := 0; k < npp; k++ {
@@ -182,6 +217,11 @@ func (p c12) start(c *core.Ctx) {
 			// a post-processor with an injection point of its own: what it needs is created while the
 			// chain is still being built
 			extra = append(extra, world.NewPPDep(cl, name, ord))
+		} else if withLate && (cl == 1 || cl == 2) && c.Rng.Intn(2) == 0 {
+			// the order is settled while the factory is prepared: the provisional value must not matter
+			plain = append(plain, len(extra))
+			extra = append(extra, world.NewLatePP(cl, name, ordPool[c.Rng.Intn(len(ordPool))], ord))
+			late++
 		} else if withLazy && c.Rng.Intn(2) == 0 {
 			// used as registered, without being created first: still one participant of the one sequence
 			plain = append(plain, len(extra))
@@ -357,6 +397,7 @@ func (p c12) start(c *core.Ctx) {
 	if len(lazyPP) > 0 && len(lazyPP) < npp {
 		c.Count("starts_mixing_lazy_and_created_post_processors", 1)
 	}
+	c.Count("post_processors_with_late_settled_order", late)
 	if supplied != "" {
 		if _, ok := perComp["pp-after|"+supplied]; ok {
 			c.Count("starts_with_a_supplied_component_observed", 1)
